@@ -189,3 +189,150 @@ Proof. vm_compute. reflexivity. Qed.
 
 Example ex_compare_nodes_number : cmp_rule ex_ctx CEq (VNodes [4; 6]) (VNum d_one).
 Proof. apply compare_rule. vm_compute. reflexivity. Qed.
+
+(* ---------------------------------------------------------------------------------------------------------
+   The core function id() (XPath 1.0 sections 4.1 and 5.2.1): the element-by-ID table that
+   XalanSourceTreeDocument::createAttributes fills during the SAX2 walk, XalanSourceTreeDocument::getElementById
+   and FunctionID::execute (model: XpIdDefs.v).  The attribute type test, insert-vs-overwrite, the delimiter
+   set and the node-set separator are read from /repo on every run (GenXpId.v, translator/gen_xpid.py) and the
+   lemmas below compute with them: a prefix test instead of the whole-string comparison with "ID", operator[]
+   instead of insert(), or another delimiter set make these proofs fail. *)
+Require Import XV.GenXpId XV.XpIdDefs XV.XpIdModel.
+
+(* The type test accepts exactly the type string "ID" - not "IDREF", "IDREFS", nor anything else. *)
+Theorem id_type_test_is_exact : forall t, is_id_type t = true <-> t = s_ID.
+Proof. exact is_id_type_exact. Qed.
+Print Assumptions id_type_test_is_exact.
+
+(* (a) For every document and every assignment of declared types: the table built by the walk maps a value to
+   the FIRST element in document order carrying an attribute of declared type ID with that value ... *)
+Theorem id_table_maps_value_to_first_element : forall d ty v e,
+  tbl_find (build_table d ty) v = Some e <-> unique_id d ty e v.
+Proof. exact table_finds_first. Qed.
+Print Assumptions id_table_maps_value_to_first_element.
+
+(* ... has no entry exactly when no element has the value as an ID ... *)
+Theorem id_table_misses_only_absent_values : forall d ty v,
+  tbl_find (build_table d ty) v = None <-> forall e, ~ has_id d ty e v.
+Proof. exact table_none. Qed.
+Print Assumptions id_table_misses_only_absent_values.
+
+(* ... and never maps to an element that carries the value only in attributes of another type (IDREF,
+   IDREFS, CDATA, ...). *)
+Theorem id_table_ignores_non_id_attributes : forall d ty v e,
+  tbl_find (build_table d ty) v = Some e ->
+  exists a, In a (n_attrs (get d e)) /\ ty a = s_ID /\ n_value (get d a) = v.
+Proof. exact table_only_id_typed. Qed.
+Print Assumptions id_table_ignores_non_id_attributes.
+
+(* (b) id() of a token list is the document-ordered duplicate-free union of the per-token look-ups; it
+   depends only on the SET of tokens (order and multiplicity of the tokens are irrelevant); the empty-string
+   and single-token short cuts of FunctionID::execute change nothing. *)
+Theorem id_of_tokens_membership : forall tbl toks x,
+  In x (id_tokens tbl toks) <-> exists t, In t toks /\ tbl_find tbl t = Some x.
+Proof. exact id_tokens_In. Qed.
+Print Assumptions id_of_tokens_membership.
+
+Theorem id_of_tokens_in_document_order : forall tbl toks, ordered (id_tokens tbl toks).
+Proof. exact id_tokens_ordered. Qed.
+Print Assumptions id_of_tokens_in_document_order.
+
+Theorem id_independent_of_token_order_and_multiplicity : forall tbl toks toks',
+  (forall t, In t toks <-> In t toks') -> id_tokens tbl toks = id_tokens tbl toks'.
+Proof. exact id_tokens_set. Qed.
+Print Assumptions id_independent_of_token_order_and_multiplicity.
+
+Theorem id_short_cuts_are_the_general_loop : forall tbl s, id_of_string tbl s = id_tokens tbl (tokens s).
+Proof. exact id_of_string_tokens. Qed.
+Print Assumptions id_short_cuts_are_the_general_loop.
+
+(* The pieces FunctionID looks up are exactly the whitespace-separated tokens of the argument string
+   (maximal non-empty pieces free of #x20 #x9 #xA #xD), for every string. *)
+Theorem id_tokens_are_whitespace_separated_tokens : forall s t, In t (tokens s) <-> token_of s t.
+Proof. exact tokens_are_ws_tokens. Qed.
+Print Assumptions id_tokens_are_whitespace_separated_tokens.
+
+(* (c) id(node-set) is the union over the nodes of id(string-value of the node). *)
+Theorem id_of_node_set_is_union_over_nodes : forall d tbl l x,
+  In x (id_of_nodes d tbl l) <-> exists n, In n l /\ In x (id_of_string tbl (string_value (fun _ _ => false) d n)).
+Proof. exact id_of_nodes_union. Qed.
+Print Assumptions id_of_node_set_is_union_over_nodes.
+
+(* (d) The model selects exactly what sections 4.1 / 5.2.1 define - for EVERY document, also invalid ones
+   with duplicate IDs (the second element in document order is treated as having no unique ID) ... *)
+Theorem id_of_string_follows_section_4_1 : forall d ty s x,
+  In x (fn_id d ty (IdStr s)) <-> spec_id_string d ty s x.
+Proof. exact fn_id_string_spec. Qed.
+Print Assumptions id_of_string_follows_section_4_1.
+
+Theorem id_of_node_set_follows_section_4_1 : forall d ty l x,
+  In x (fn_id d ty (IdNodes l)) <-> spec_id_nodes d ty l x.
+Proof. exact fn_id_nodes_spec. Qed.
+Print Assumptions id_of_node_set_follows_section_4_1.
+
+(* ... the result being THE document-ordered duplicate-free list with these members ... *)
+Theorem id_result_is_the_ordered_set : forall d ty a r,
+  ordered r -> (forall x, In x r <-> In x (fn_id d ty a)) -> r = fn_id d ty a.
+Proof. exact fn_id_unique_result. Qed.
+Print Assumptions id_result_is_the_ordered_set.
+
+(* ... and under "ID values are unique" (valid documents) an element is selected iff one of the tokens is
+   its ID. *)
+Theorem id_on_documents_with_unique_ids : forall d ty s x, ids_unique d ty ->
+  (In x (fn_id d ty (IdStr s)) <-> exists t, token_of s t /\ has_id d ty x t).
+Proof. exact fn_id_string_valid_documents. Qed.
+Print Assumptions id_on_documents_with_unique_ids.
+
+(* An element that only REFERS to a value (IDREF / IDREFS / CDATA attribute) is never selected for it. *)
+Theorem id_never_selects_a_mere_referrer : forall d ty s x,
+  In x (fn_id d ty (IdStr s)) ->
+  exists t a, token_of s t /\ In a (n_attrs (get d x)) /\ ty a = s_ID /\ n_value (get d a) = t.
+Proof. exact referrers_are_not_selected. Qed.
+Print Assumptions id_never_selects_a_mere_referrer.
+
+(* Non-vacuity: <a><r ref="s1" refs="s2 s1"/><s id="s1"/><s id="s2"/><s id="s1"/></a> with ref : IDREF, refs : IDREFS,
+   id : ID - a forward reference and a duplicate ID.  Nodes: 0 document, 1 a, 2 xmlns:xml, 3 r, 4 ref, 5 refs,
+   6 s, 7 id, 8 s, 9 id, 10 s, 11 id. *)
+Definition ex_id_doc : doc :=
+  build_doc [TElem [97]%N []
+    [TElem [114]%N [([114;101;102]%N, [115;49]%N); ([114;101;102;115]%N, [115;50;32;115;49]%N)] [];
+     TElem [115]%N [([105;100]%N, [115;49]%N)] [];
+     TElem [115]%N [([105;100]%N, [115;50]%N)] [];
+     TElem [115]%N [([105;100]%N, [115;49]%N)] []]].
+Definition ex_id_types : atype_fn := fun a =>
+  if Nat.eqb a 4 then [73;68;82;69;70]%N                       (* IDREF *)
+  else if Nat.eqb a 5 then [73;68;82;69;70;83]%N               (* IDREFS *)
+  else if Nat.eqb a 7 || Nat.eqb a 9 || Nat.eqb a 11 then s_ID
+  else [67;68;65;84;65]%N.                                      (* CDATA *)
+
+Example ex_id_forward_reference : fn_id ex_id_doc ex_id_types (IdStr [115;49]%N) = [6].
+Proof. vm_compute. reflexivity. Qed.
+
+Example ex_id_argument_order_irrelevant :
+  fn_id ex_id_doc ex_id_types (IdStr [32;115;50;9;115;49;10;115;50]%N) = [6; 8].       (* " s2<TAB>s1<LF>s2" *)
+Proof. vm_compute. reflexivity. Qed.
+
+Example ex_id_of_node_set : fn_id ex_id_doc ex_id_types (IdNodes [4; 5]) = [6; 8].
+Proof. vm_compute. reflexivity. Qed.
+
+Example ex_id_unique_id_satisfiable : unique_id ex_id_doc ex_id_types 6 [115;49]%N.
+Proof. apply table_finds_first. vm_compute. reflexivity. Qed.
+
+(* the hypothesis of id_on_documents_with_unique_ids is satisfiable (the same document without the last <s>) *)
+Definition ex_id_doc_valid : doc :=
+  build_doc [TElem [97]%N []
+    [TElem [114]%N [([114;101;102]%N, [115;49]%N); ([114;101;102;115]%N, [115;50;32;115;49]%N)] [];
+     TElem [115]%N [([105;100]%N, [115;49]%N)] [];
+     TElem [115]%N [([105;100]%N, [115;50]%N)] []]].
+
+Example ex_ids_unique_satisfiable : ids_unique ex_id_doc_valid ex_id_types.
+Proof.
+  assert (K : forall e v, has_id ex_id_doc_valid ex_id_types e v ->
+                (e = 6 /\ v = [115;49]%N) \/ (e = 8 /\ v = [115;50]%N)).
+  { intros e v (K & a & Ha & Ht & Hv).
+    do 10 (destruct e as [|e]; [cbn in K; try discriminate K; cbn in Ha;
+             repeat (destruct Ha as [<-|Ha]; [cbn in Ht; try discriminate Ht; cbn in Hv; subst v; auto|]); destruct Ha |]).
+    unfold get, ex_id_doc_valid in K. cbn in K. destruct e; discriminate K. }
+  intros e e' v H H'. apply K in H. apply K in H'.
+  destruct H as [[-> ->]|[-> ->]], H' as [[-> E]|[-> E]]; try reflexivity; discriminate E.
+Qed.
